@@ -406,3 +406,117 @@ class SigEncodingBounded:
             error = True
         want = (not error) and (success != negate)
         return got is want
+
+
+# ---- OP_CHECKMULTISIG under the policy flags --------------------------------------------------
+_SIG_KINDS = ["valid", "valid", "valid", "empty", "wrongkey", "high-s", "lax", "hashtype0", "garbage"]
+_VALID_KINDS = ("valid", "high-s", "lax", "hashtype0")
+
+
+def _gen_multisig(rng):
+    n = rng.choice([1, 2, 3])
+    m = rng.randrange(1, n + 1)
+    keys = [rng.choice(["compressed", "compressed", "compressed", "uncompressed", "hybrid", "short"]) for _ in range(n)]
+    signers = sorted(rng.sample(range(n), m))
+    if rng.random() < 0.15:
+        rng.shuffle(signers)        # signatures out of key order: fails without an error
+    sigs = [(rng.choice(_SIG_KINDS), j) for j in signers]
+    return dict(form=rng.choice(["bare", "bare", "p2wsh"]), keys=keys, sigs=sigs, negate=rng.random() < 0.4, op0_prefix=rng.random() < 0.25,
+                dummy=rng.choice([b"", b"", b"", b"\x01"]), d=rng.randrange(1, _C.n - 10), flags=tuple(f for f in _ENC_FLAGS + ["NULLDUMMY"] if rng.random() < 0.35))
+
+
+def _make_sig(kind, prv, digest_of, ht_default=1):
+    ht = {"hashtype0": 0}.get(kind, ht_default)
+    if kind == "empty":
+        return b""
+    if kind == "garbage":
+        return b"\x30\x03\x02\x01" + bytes([ht])
+    digest = digest_of(ht)
+    signer = prv if kind != "wrongkey" else (prv + 1000) % _C.n or 1      # a key that is none of the script's
+    r, s, _ = sign_raw(_C, int.from_bytes(digest, "big"), signer, int.from_bytes(hashlib.sha256(digest + b"k").digest(), "big") % _C.n or 1)
+    s = min(s, _C.n - s)
+    if kind == "high-s":
+        s = _C.n - s
+    if kind == "lax":
+        rb = r.to_bytes(33, "big")
+        full = der_sig(r, s)
+        body = b"\x02" + bytes([len(rb)]) + rb + full[4 + full[3]:]
+        return b"\x30" + bytes([len(body)]) + body + bytes([ht])
+    return der_sig(r, s) + bytes([ht])
+
+
+def multisig_verdict(form, keys, sigs, negate, op0_prefix, dummy, d, flags):
+    prvs = [d + j for j in range(len(keys))]
+    pks = []
+    for kind, prv in zip(keys, prvs):
+        P = _C.mul(prv, _C.G)
+        pks.append({"compressed": sec_compressed(P), "uncompressed": b"\x04" + P[0].to_bytes(32, "big") + P[1].to_bytes(32, "big"),
+                    "hybrid": bytes([6 + (P[1] & 1)]) + P[0].to_bytes(32, "big") + P[1].to_bytes(32, "big"), "short": b"\x02\x01\x02\x03\x04"}[kind])
+    script = (b"\x00\x75" if op0_prefix else b"") + bytes([0x50 + len(sigs)]) + b"".join(push(k) for k in pks) + bytes([0x50 + len(keys)]) + b"\xae" + (b"\x91" if negate else b"")
+    fl = ScriptFlag(0)
+    for name in ("P2SH", "WITNESS") + tuple(flags):
+        fl |= getattr(ScriptFlag, name)
+    spk = script if form == "bare" else b"\x00\x20" + hashlib.sha256(script).digest()
+    tx = Tx(2, 0, [TxIn(OutPoint(b"\x06" * 32, 0), b"", 0xFFFFFFFF, Witness([]), check_validity=False)], [TxOut(900, b"\x51")], check_validity=False)
+    prevouts = [TxOut(3000, ScriptPubKey(spk, check_validity=False), check_validity=False)]
+    digest_of = (lambda ht: sh.legacy(script, tx, 0, ht)) if form == "bare" else (lambda ht: sh.bip143(script, tx, 0, ht, 3000))
+    sig_bytes = [_make_sig(kind, prvs[j], digest_of) for kind, j in sigs]
+    if form == "bare":
+        tx.vin[0].script_sig = push(dummy) + b"".join(push(s) for s in sig_bytes)
+    else:
+        tx.vin[0].script_witness = Witness([dummy] + sig_bytes + [script])
+    try:
+        verify_input(prevouts, tx, 0, fl)
+        return True, sig_bytes
+    except BTClibValueError:
+        return False, sig_bytes
+
+
+@contract("contracts.c_engine.multisig_verdict", gen=_gen_multisig, props="C08 C04", both_arms=True, n_quick=500, n_thorough=20000,
+          rule="m-of-n CHECKMULTISIG [NOT] (n <= 3, optionally behind OP_0 DROP) bare and P2WSH x per-signature kinds {valid, empty, wrong key, high-s, lax DER, hash type 0, garbage} in and out of key order x per-key kinds {compressed, uncompressed, hybrid, malformed} x empty / non-empty dummy x every subset of DERSIG, STRICTENC, LOW_S, NULLFAIL, WITNESS_PUBKEYTYPE, CONST_SCRIPTCODE, NULLDUMMY")
+class MultisigBounded:
+    """Core's OP_CHECKMULTISIG arm: FindAndDelete of every signature push first (an error under
+    CONST_SCRIPTCODE when found), then key by key from the top of the stack -- signature encoding,
+    key encoding, verification, stop as soon as too few keys remain -- then NULLFAIL over every
+    signature element, then NULLDUMMY"""
+
+    def post_core_verdict(form, keys, sigs, negate, op0_prefix, dummy, flags, result):
+        got, sig_bytes = result
+        F = set(flags)
+        v0 = form == "p2wsh"
+
+        def core():
+            if form == "bare" and "CONST_SCRIPTCODE" in F and op0_prefix and any(s == b"" for s in sig_bytes):
+                return "error"
+            nsig, nkey = len(sigs), len(keys)
+            isig, ikey = nsig - 1, nkey - 1          # Core walks from the top of the stack: last signature, last key
+            success = True
+            while success and nsig > 0:
+                sig, (kind, signer) = sig_bytes[isig], sigs[isig]
+                if sig != b"":
+                    if F & {"DERSIG", "LOW_S", "STRICTENC"} and not is_strict_der_sig(sig[:-1]):
+                        return "error"
+                    if "LOW_S" in F and kind == "high-s":
+                        return "error"
+                    if "STRICTENC" in F and not (1 <= (sig[-1] & ~0x80) <= 3):
+                        return "error"
+                if "STRICTENC" in F and keys[ikey] in ("hybrid", "short"):
+                    return "error"
+                if "WITNESS_PUBKEYTYPE" in F and v0 and keys[ikey] != "compressed":
+                    return "error"
+                ok = kind in _VALID_KINDS and signer == ikey and keys[ikey] != "short"
+                if ok:
+                    isig -= 1
+                    nsig -= 1
+                ikey -= 1
+                nkey -= 1
+                if nsig > nkey:
+                    success = False
+            if not success and "NULLFAIL" in F and any(s != b"" for s in sig_bytes):
+                return "error"
+            if "NULLDUMMY" in F and dummy != b"":
+                return "error"
+            return success
+        r = core()
+        want = False if r == "error" else (r != negate)
+        return got is want
